@@ -58,8 +58,9 @@ class MixedArrayShapes(ProgramError):
     def __str__(self):
         return "\n".join(
             (
-                "Problem: The shapes of at least two arrays do no match. The shapes are ({}, {}) and ({}, {}).".format(
-                    *(self.shape_a + self.shape_b)
+                "Problem: The shapes of at least two arrays do no match. The shapes are ({}) and ({}).".format(
+                    ", ".join(str(n) for n in self.shape_a),
+                    ", ".join(str(n) for n in self.shape_b),
                 ),
                 "Solution: All arrays must have the same shape. Double check the shapes of your input data.",
             )
